@@ -70,6 +70,8 @@ MOS = [
        lambda F: prune_dependencies(F), functions=[("backup.rs", "prune_backups")], role="prune-ignores-parent-chain"),
     MO("O12.5/incremental_snapshot", "create_incremental_backup: the snapshot named by the shipped MANIFEST is archived whenever it is not the one the parent chain carries (structure + DECIDES + FOLLOWS), and is recorded in the metadata",
        lambda F: incremental_snapshot(F), functions=[("backup.rs", "create_incremental_backup"), ("backup.rs", "chain_snapshot_file")], role="incremental-omits-snapshot"),
+    MO("O12.6/pitr_selection", "restore_point_in_time_with_options: the Full backup is the first (newest) one at or before the target, every chain hop is the first match of a scan of the newest-first list whose predicate requires parent == current and timestamp <= target",
+       lambda F: pitr_selection(F), functions=[("backup.rs", "restore_point_in_time_with_options"), ("backup.rs", "list_backups_from_dir")], role="pitr-picks-wrong-backup"),
     MO("O12.1/limits", "archive header parser: the name buffer is allocated only for 0 < name_len <= MAX_NAME, Ok only for data_len <= MAX_SIZE, file count Ok only for count <= MAX_FILES — proved for all values (DECIDES)",
        lambda F: limits_decided(F), functions=[("backup.rs", "read_archive_member_header"), ("backup.rs", "read_archive_file_count")]),
     MO("O12.3/chain_order", "restore_from_backup_with_options: for an incremental target the chain pushed along the parent links is reversed exactly once before any archive is verified or extracted, and it is not re-ordered by any other key",
@@ -221,6 +223,83 @@ def incremental_snapshot(F):
     return out
 
 
+def pitr_selection(F):
+    """restore_point_in_time_with_options picks (1) the first Full backup with timestamp <= target in the newest-first list and
+    (2) hop by hop the first Incremental in that list whose parent is the current backup and whose timestamp <= target — i.e.
+    the *newest* eligible child.  Decided structurally on the MIR: the list order (sort closure compares b.timestamp with
+    a.timestamp), the provenance of every chain hop (payload of Iterator::find over the list), the three conjuncts guarding
+    the predicate's only non-false result, and the break after the first matching Full."""
+    import vlib.mir as _M
+    from vlib.mirflow import origin as _o
+    P = "backup::RestoreManager::restore_point_in_time_with_options"
+    fc = FnCheck(F, P)
+    if fc.fn is None:
+        return [fc.missing()]
+    fn = fc.fn
+    ti = field_index("backup.rs", "BackupMetadata", "timestamp")
+    pi = field_index("backup.rs", "BackupMetadata", "parent_id")
+    if ti is None or pi is None:
+        return [Result("inconclusive", "BackupMetadata.timestamp / parent_id not found")]
+    out = []
+    # (a) list order: newest first
+    desc = None
+    for name, f2 in F.items():
+        if not re.search(r"(^|::)list_backups_from_dir::\{closure#\d+\}$", name):
+            continue
+        for b in f2.blocks.values():
+            if b.kind == "call" and re.search(r"<u64 as Ord>::cmp", b.term or ""):
+                a = _M._split_top(b.args)
+                o0, o1 = _o(f2, a[0]), _o(f2, a[1])
+                if re.search(r"arg\(_3.*\.%d: u64\)" % ti, o0) and re.search(r"arg\(_2.*\.%d: u64\)" % ti, o1):
+                    desc = True
+                elif re.search(r"arg\(_2.*\.%d: u64\)" % ti, o0) and re.search(r"arg\(_3.*\.%d: u64\)" % ti, o1):
+                    desc = False
+    if desc is None:
+        out.append(Result("inconclusive", "sort comparator of list_backups_from_dir not recognised"))
+    elif not desc:
+        out.append(Result("violated", "list_backups_from_dir sorts oldest-first: PITR's first-match scans then pick the oldest eligible backup", sample={"fn": "list_backups_from_dir", "kind": "PROVENANCE"}))
+    else:
+        out.append(Result("holds", "list_backups_from_dir sorts by cmp(b.timestamp, a.timestamp): newest first", sample={"fn": "list_backups_from_dir", "kind": "PROVENANCE"}))
+    # (b) every chain hop is the payload of a first-match scan (Iterator::find) over the list
+    HOP = call(r"= Vec::<&(backup::)?BackupMetadata>::push\(", name="incrementals.push(next hop)")
+    hops = []
+    for b in fn.blocks.values():
+        if not b.cleanup and HOP.match_block(fn, b):
+            a = _M._split_top(b.args)
+            hops.append((b.idx, _o(fn, a[1]) if len(a) > 1 else "?"))
+    if not hops:
+        return out + [Result("inconclusive", "no chain hop (Vec<&BackupMetadata>::push) in " + P)]
+    foreign = [(i, o) for i, o in hops if not re.search(r"^\(\(\{call <(std::slice::)?Iter<'_, (backup::)?BackupMetadata> as Iterator>::find::<\{closure@.*\} as Some\)\.0: &(backup::)?BackupMetadata\)$", o)]
+    smp = {"fn": fc.name, "kind": "PROVENANCE", "hops": [o[:120] for _i, o in hops]}
+    if foreign:
+        out.append(Result("inconclusive", "chain hop bb%d is not the first match of a scan over the newest-first backup list (%s)" % (foreign[0][0], foreign[0][1][:100]), sample=smp))
+        return out
+    out.append(Result("holds", "every chain hop is the first match of Iterator::find over the newest-first list", sample=smp))
+    # (c) the predicate: its only non-false result is guarded by parent == Some(current) and timestamp <= target
+    preds = [n for n, f2 in F.items() if n.startswith(P + "::{closure#") and any(b.kind == "call" and re.search(r"<(std::option::)?Option<(uuid::)?Uuid> as PartialEq>::eq", b.term or "") for b in f2.blocks.values())]
+    if len(preds) != 1:
+        return out + [Result("inconclusive", "find predicate closure not identified (%d candidates)" % len(preds))]
+    Q = preds[0]
+    qc = FnCheck(F, Q)
+    TYPE_EQ = call(r"^_0 = <(backup::)?BackupType as PartialEq>::eq\(", name="return b.backup_type == Incremental")
+    out.append(qc.only_via(TYPE_EQ, Arm(r"^call <Option<Uuid> as PartialEq>::eq$", {"otherwise"}, name="b.parent_id == Some(current_id)")))
+    out.append(qc.only_via(TYPE_EQ, Arm(r"^Le\(\(\(\*\{.*\(\*_2\)\}\)\.%d: u64\), \(\*\{.*\(\(\*_1\)\.\d+: &u64\)\}\)\)$" % ti, {"otherwise"}, name="b.timestamp <= target")))
+    qfn = qc.fn
+    other = [st for b in qfn.blocks.values() if not b.cleanup for st in b.stmts if re.match(r"^_0 = ", st) and not re.match(r"^_0 = const false;$", st)]
+    if other:
+        out.append(Result("violated", "the chain predicate has another non-false result: %s" % other[0][:80], sample={"fn": Q, "kind": "PROVENANCE"}))
+    pa = [(_o(qfn, _M._split_top(b.args)[0]), _o(qfn, _M._split_top(b.args)[1])) for b in qfn.blocks.values() if b.kind == "call" and re.search(r"Option<(uuid::)?Uuid> as PartialEq>::eq", b.term or "")]
+    if not (pa and re.search(r"\.%d: (std::option::)?Option<(uuid::)?Uuid>\)$" % pi, pa[0][0]) and "Some(" in pa[0][1]):
+        out.append(Result("violated", "the chain predicate does not compare b.parent_id with Some(current_id): %s" % str(pa)[:120], sample={"fn": Q, "kind": "PROVENANCE"}))
+    # (d) the Full backup: first list element with timestamp <= target and type Full, then break
+    FULL_SET = stmt(r"^_\d+ = (std::option::)?Option::<&(backup::)?BackupMetadata>::Some\(", name="full_backup = Some(backup)")
+    NEXT = call(r"= <(std::slice::)?Iter<'_, (backup::)?BackupMetadata> as Iterator>::next\(", name="next backup of the list")
+    out.append(fc.only_via(FULL_SET, Arm(r"^Le\(\(\(\*.*Iterator>::next\} as Some\)\.0: &(backup::)?BackupMetadata\)\}\)\.%d: u64\), arg\(_2: u64\)\)$" % ti, {"otherwise"}, name="backup.timestamp <= target")))
+    out.append(fc.only_via(FULL_SET, Arm(r"^call <BackupType as PartialEq>::eq$", {"otherwise"}, name="backup.backup_type == Full")))
+    out.append(fc.never(NEXT, frm=FULL_SET))
+    return out
+
+
 def clear_decision(F):
     """clear_data_directory: a file of the target directory is removed only if (allow_clear or the BACKUP_ALLOW_CLEAR confirmation)
     and not dry_run — the decision for all four settings (DECIDES); field numbers from the struct definition."""
@@ -283,6 +362,16 @@ def run(tier, seed, notes):
             if r.get("reproduced") is not None:
                 o.replay = r
                 o.detail += " | native replay: " + str(r.get("output"))[:220]
+        if o.oid == "O12.6/pitr_selection" and o.verdict in ("violated", "inconclusive") and ("chain hop" in (o.detail or "") or "oldest-first" in (o.detail or "")):
+            # the selection is not in the recognised first-match form: let the real code decide on a branching backup graph
+            r = RP.run_scenario(["pitr-siblings"], timeout=300, notes=notes)
+            if r.get("reproduced"):
+                o.verdict = "violated"
+                o.replay = r
+                o.detail += " | native replay: " + str(r.get("output"))[:260]
+            elif r.get("reproduced") is False:
+                o.verdict = "inconclusive"
+                o.detail += " | native replay did not reproduce a wrong restore: " + str(r.get("output"))[:160]
         if o.oid == "O12.5/incremental_snapshot" and o.verdict == "violated" and "never archives the snapshot" in (o.detail or ""):
             r = RP.run_scenario(["incremental-after-snapshot"], timeout=300, notes=notes)
             if r.get("reproduced") is not None:
